@@ -45,7 +45,7 @@ def results(d, tier):
     p = os.path.join(d, "bind.json")
     res = common.load_json(p)
     if res is None:
-        files = sorted(f for f in os.listdir(d) if f.startswith(("walk_", "rand_")) and f.endswith(".json"))
+        files = sorted(f for f in os.listdir(d) if f.startswith(("walk_", "rand_", "rbelt_")) and f.endswith(".json"))
         maxtr = 250 if tier == "quick" else 0
         with mp.Pool(8) as pool:
             outs = pool.map(_one, [(f, d, maxtr) for f in files])
